@@ -29,6 +29,14 @@ def natural_cases(quick):
                 if quick and obsv != 'wait' and tgt not in ('t_none', 't_raise', 't_unrebuildable_exc', 't_big'):
                     continue
                 out.append({'kind': kind, 'target': tgt, 'events': [], 'observe': obsv, 'ending': 'natural', 'timeout': 6})
+    # a kill signal while the child is part-way through sending a result bigger than the pipe / socket buffers
+    # (the parent is not reading: process kinds; the parent's frontend is held back before it reads: remote kind)
+    for sig in ('KILL', 'TERM'):
+        for obsv in ('wait', 'poll'):
+            out.append({'kind': 'P', 'target': 't_big', 'targs': {'size': 4 << 20}, 'events': [], 'observe': obsv, 'ending': 'killed-in-send',
+                        'kill_after': {'delay': 0.5, 'sig': sig}, 'timeout': 6})
+            out.append({'kind': 'R', 'target': 't_big', 'targs': {'size': 8 << 20}, 'events': [], 'observe': obsv, 'ending': 'killed-in-send',
+                        'kill_after': {'delay': 0.5, 'sig': sig}, 'timeout': 6, 'frontend_delay': {'comment_prefix': 'data: result', 'seconds': 1.2}})
     for kind in ('PT', 'PP', 'PR'):
         for obsv in ('wait', 'terminate', 'poll'):
             out.append({'kind': kind, 'target': 'p_echo', 'inputs': [1, 2], 'close': True, 'events': [], 'observe': obsv, 'ending': 'natural'})
@@ -81,6 +89,9 @@ def expected(case):
             own = [(True, None, None), (False, 'obj:BadResult', None)]
             if kind == 'T':
                 own = [(False, 'obj:BadResult', None)]
+    if case.get('kill_after'):
+        # killed while sending: nothing reportable (or, if the message got through before the signal, the value itself)
+        return [(True, None, None), (False, 'bytes[%d]' % case['targs']['size'], None)]
     if ev is None:
         if t == 'p_echo':
             own = [(False, len(case.get('inputs', [])), None)]
@@ -139,13 +150,20 @@ def run(ctx):
     res_nat = land.run_cases(nat, case_timeout=90)
     scs = landing_scenarios(ctx.quick)
     bases, runs = land.sweep(scs, actions_for(ctx.quick), full=full)
+    # two requests per run for thread kinds (the second one can land inside the handling of the first)
+    pair_scs = [{'kind': 'T', 'target': 't_loop', 'ending': 'landing-pair'}, {'kind': 'T', 'target': 't_raise', 'ending': 'landing-pair'}]
+    if not ctx.quick:
+        pair_scs += [{'kind': 'PT', 'target': 'p_echo', 'inputs': [1], 'close': True, 'ending': 'landing-pair'},
+                     {'kind': 'PT', 'target': 'p_poison', 'inputs': [99], 'close': True, 'ending': 'landing-pair'}]
+    _, _, pair_runs = land.sweep_pairs(pair_scs, full=True)
+    ctx.extra['landing_pair_runs'] = len(pair_runs)
     harness = 0
-    for obs in res_nat + runs:
+    for obs in res_nat + runs + pair_runs:
         case = obs['case']
         ev = (case.get('events') or [None])[0]
         site = ((obs.get('landed') or [{}])[0].get('site')) or case.get('_site')      # where it really landed in this run
         ctx.count()
-        ctx.distinct((case['kind'], case['target'], case.get('observe'), ev['action'] if ev else None, ev['k'] if ev else None))
+        ctx.distinct((case['kind'], case['target'], case.get('observe'), case.get('ending'), repr(case.get('kill_after')), tuple((e['action'], e['k']) for e in (case.get('events') or []))))
         v = judge(case, obs)
         ctx.outcome('%s:%s' % (case['kind'], v[0] if v else 'ok'))
         if v is None:
@@ -160,7 +178,11 @@ def run(ctx):
             harness += 1
             ctx.extra.setdefault('harness_anomalies', []).append({'case': {k: case.get(k) for k in ('kind', 'target', 'events')}, 'why': v[1]})
             continue
-        where = ('%s@%s' % (ev['action'], land.site_sig(site, REPO))) if ev else 'natural/%s' % case.get('observe')
+        where = ('%s@%s' % (ev['action'], land.site_sig(site, REPO))) if ev else '%s/%s' % (case.get('ending', 'natural'), case.get('observe'))
+        if len(case.get('events') or []) == 2:
+            l2 = (obs.get('landed') or [{}, {}])
+            s2 = (l2[1].get('site') if len(l2) > 1 else None) or case.get('_site2')
+            where = 'terminate@%s+terminate@%s' % (land.site_sig(site, REPO), land.site_sig(s2, REPO) if s2 else 'not-reached')
         sig = 'LAND/%s/%s/%s/%s' % (case['kind'], case['target'], where, v[0])
         ctx.violation(sig, {k: case.get(k) for k in ('kind', 'target', 'inputs', 'close', 'events', 'observe', '_site')},
                       {'death': obs.get('death'), 'rounds': obs.get('rounds'), 'terminate_ret': obs.get('terminate_ret')},
